@@ -133,6 +133,25 @@ def findings():
     out.append(dict(flag="iterative_x0_vector", present=present, witness="solve(Dense([[2,1,0],[1,3,1],[0,1,4]]), [1,2,3], GMRES(x0=ones(3), max_iters=3))", got=got,
                     expected="[0.3333, 0.3333, 0.6667]",
                     what="inv(A, GMRES(x0=v)) @ b / solve(A, b, GMRES(x0=v)) with the documented 1-D guess v fails: the lazy inverse hands gmres an (n,1) right-hand side and gmres reshapes x0 only for a 1-D one (broadcast to a wrong (n,n) result or ValueError)"))
+    # the small least-squares problem through the normal equations H^H H (condition number squared)
+    try:
+        import os
+        W = np.load(os.path.join(os.path.dirname(os.path.abspath(G.__file__)), "witness", "c13_clustered32.npz"))
+        Aw, bw = W["A"], W["b"]
+        rr = []
+        for mw in (26, 32):
+            x, _ = gmres(Dense(Aw), bw, max_iters=mw, tol=1e-12)
+            rr.append(float(np.linalg.norm(bw - Aw @ np.asarray(x)) / np.linalg.norm(bw)))
+        present = bool(not np.isfinite(rr[1]) or rr[1] > 1e-10)
+        got = "relative residuals for max_iters=26, 32: %s" % ", ".join("%.3g" % v for v in rr)
+    except Exception as e:  # noqa
+        present, got = True, "raised %s: %s" % (type(e).__name__, str(e)[:80])
+    out.append(dict(flag="gmres_normal_equations", present=present,
+                    witness="gmres(Dense(A), b, max_iters=32, tol=1e-12) with A, b of harness/witness/c13_clustered32.npz (32x32 real normal matrix, three eigenvalue clusters of width 1%, cond 33)",
+                    got=got, expected="6e-13, 4e-15 (non-increasing, zero to rounding at max_iters = n)",
+                    what="gmres solves min ||beta e1 - H y|| through the regularised normal equations H^H H: once the single-pass Gram-Schmidt basis has lost orthogonality "
+                         "(max_iters near n, clustered spectrum) cond(H) ~ 1e8, cond(H)^2 exceeds 1/eps, and the residual at max_iters = n is 1.1e-6 ||b|| although the "
+                         "least-squares optimum of the same H is 1e-14 and the residual at max_iters = 26 was 6e-13"))
     return out
 
 
